@@ -235,7 +235,7 @@ func genTx(c *hx.Ctx, signers []*signer) (raw []byte, kind string) {
 		m.GasPrice = uint64(c.Intn(5000))
 		m.GasLimit = uint64(20000 + c.Intn(100000))
 		m.Payer = types.AddressFromPubKey(s.pub)
-		nsig := c.Intn(3)
+		nsig := c.Intn(2)
 		for i := 0; i < nsig; i++ {
 			h := m.Hash()
 			sg := signers[(i+c.Intn(len(signers)))%len(signers)]
@@ -256,7 +256,7 @@ func genTx(c *hx.Ctx, signers []*signer) (raw []byte, kind string) {
 		}
 		return sign(utils.NewInvokeTransaction(code)), "invoke-native"
 	case 1:
-		dc, err := payload.CreateDeployCode(c.Bytes(1+c.Intn(40)), uint32(c.Intn(2)), c.Bytes(c.Intn(8)), c.Bytes(c.Intn(4)), c.Bytes(c.Intn(8)), c.Bytes(c.Intn(8)), c.Bytes(c.Intn(16)))
+		dc, err := payload.CreateDeployCode(c.Bytes(1+c.Intn(20)), uint32(c.Intn(2)), c.Bytes(c.Intn(6)), c.Bytes(c.Intn(4)), c.Bytes(c.Intn(6)), c.Bytes(c.Intn(6)), c.Bytes(c.Intn(8)))
 		if err != nil {
 			panic(err)
 		}
@@ -281,7 +281,7 @@ func genTx(c *hx.Ctx, signers []*signer) (raw []byte, kind string) {
 			return tx.ToArray(), "eip155"
 		}
 	default:
-		return sign(utils.NewInvokeTransaction(c.Bytes(1 + c.Intn(60)))), "invoke-neo"
+		return sign(utils.NewInvokeTransaction(c.Bytes(1 + c.Intn(24)))), "invoke-neo"
 	}
 }
 
@@ -341,6 +341,7 @@ type spec struct {
 	// overrides for malformed inputs
 	NKeys, NSigs         *uint64
 	NKeysForm, NSigsForm byte
+	PayloadForm          byte
 	NTx                  *uint32
 }
 
@@ -362,7 +363,8 @@ func (s *spec) unsigned() []byte {
 	w.u32(s.Timestamp)
 	w.u32(s.Height)
 	w.u64(s.ConsData)
-	w.varbytes(s.Payload)
+	w.varuint(uint64(len(s.Payload)), s.PayloadForm)
+	w.raw(s.Payload)
 	w.raw(s.NextBk[:])
 	return w.b
 }
@@ -435,7 +437,7 @@ func genSpec(c *hx.Ctx, signers []*signer, ntx, nkeys, nsigs int) *spec {
 		s.Keys = append(s.Keys, k)
 	}
 	for i := 0; i < nsigs; i++ {
-		s.Sigs = append(s.Sigs, c.Bytes(1+c.Intn(70)))
+		s.Sigs = append(s.Sigs, c.Bytes(1+c.Intn(40)))
 	}
 	seen := map[string]bool{}
 	for len(s.Txs) < ntx {
